@@ -27,6 +27,8 @@ pub struct Action {
     pub args: ArgMap,
     /// true: the (constant) template is handed straight to Compiler::compile instead of resolve_tx
     pub direct: bool,
+    /// resolved against this store instead of the model's (what an address holds changes between resolutions)
+    pub own_store: Option<usize>,
 }
 
 fn outputs_src(n: usize, min_utxo_of: Option<usize>) -> String {
@@ -68,33 +70,33 @@ pub fn actions() -> Vec<Action> {
             collateral: false,
         },
     ));
-    v.push(Action { name: "0-outputs", tx: zero, args: ArgMap::new(), direct: false });
-    v.push(Action { name: "1-output", tx: lower(&outputs_src(1, None)), args: args.clone(), direct: false });
-    v.push(Action { name: "2-outputs", tx: lower(&outputs_src(2, None)), args: args.clone(), direct: false });
-    v.push(Action { name: "5-outputs", tx: lower(&outputs_src(5, None)), args: args.clone(), direct: false });
-    v.push(Action { name: "2-outputs-min_utxo(first)", tx: lower(&outputs_src(2, Some(0))), args: args.clone(), direct: false });
-    v.push(Action { name: "3-outputs-min_utxo(last)", tx: lower(&outputs_src(3, Some(2))), args: args.clone(), direct: false });
+    v.push(Action { name: "0-outputs", tx: zero, args: ArgMap::new(), direct: false, own_store: None });
+    v.push(Action { name: "1-output", tx: lower(&outputs_src(1, None)), args: args.clone(), direct: false, own_store: None });
+    v.push(Action { name: "2-outputs", tx: lower(&outputs_src(2, None)), args: args.clone(), direct: false, own_store: None });
+    v.push(Action { name: "5-outputs", tx: lower(&outputs_src(5, None)), args: args.clone(), direct: false, own_store: None });
+    v.push(Action { name: "2-outputs-min_utxo(first)", tx: lower(&outputs_src(2, Some(0))), args: args.clone(), direct: false, own_store: None });
+    v.push(Action { name: "3-outputs-min_utxo(last)", tx: lower(&outputs_src(3, Some(2))), args: args.clone(), direct: false, own_store: None });
     // fails in reduce: a number minus bytes
     let mut bad = lower(&outputs_src(2, None));
     bad.outputs[0].amount = tirb::builtin(tir::BuiltInOp::Sub(tir::Expression::Number(1), tir::Expression::Bytes(vec![1])));
-    v.push(Action { name: "fails-in-reduce", tx: bad, args: args.clone(), direct: false });
+    v.push(Action { name: "fails-in-reduce", tx: bad, args: args.clone(), direct: false, own_store: None });
     // fails with InputNotResolved: asks for more than the store holds
     let mut poor = args.clone();
     poor.insert("q".into(), ArgValue::Int(900_000_000_000));
-    v.push(Action { name: "fails-input-not-resolved", tx: lower(&outputs_src(2, None)), args: poor, direct: false });
+    v.push(Action { name: "fails-input-not-resolved", tx: lower(&outputs_src(2, None)), args: poor, direct: false, own_store: None });
     // fails in compile: receiver address of 5 bytes
     let mut badaddr = args.clone();
     badaddr.insert("r".into(), ArgValue::Address(vec![1, 2, 3, 4, 5]));
-    v.push(Action { name: "fails-in-compile", tx: lower(&outputs_src(2, None)), args: badaddr, direct: false });
+    v.push(Action { name: "fails-in-compile", tx: lower(&outputs_src(2, None)), args: badaddr, direct: false, own_store: None });
     // a transaction whose first output carries a 1000-byte inline datum: as history it leaves a body whose
     // output 0 is far larger than anything the other templates produce
     let big = "party S;\nparty R;\ntx t(q: Int, blob: Bytes) {\n    input src {\n        from: S,\n        min_amount: fees + Ada(q),\n    }\n    output o0 {\n        to: R,\n        amount: Ada(q),\n        datum: blob,\n    }\n    output o1 {\n        to: S,\n        amount: src - fees - Ada(q),\n    }\n}\n";
     let mut big_args = args.clone();
     big_args.insert("blob".into(), ArgValue::Bytes(vec![0x42; 1000]));
-    v.push(Action { name: "2-outputs-1000-byte-datum", tx: lower(big), args: big_args, direct: false });
+    v.push(Action { name: "2-outputs-1000-byte-datum", tx: lower(big), args: big_args, direct: false, own_store: None });
     // min_utxo inside the input threshold: the first-round estimate decides whether the input resolves at all
     let thr = "party S;\nparty R;\ntx t(q: Int) {\n    input src {\n        from: S,\n        min_amount: fees + min_utxo(small) + min_utxo(change),\n    }\n    output small {\n        to: R,\n        amount: min_utxo(small),\n    }\n    output change {\n        to: S,\n        amount: src - fees - min_utxo(small),\n    }\n}\n";
-    v.push(Action { name: "min_utxo-in-threshold", tx: lower(thr), args: args.clone(), direct: false });
+    v.push(Action { name: "min_utxo-in-threshold", tx: lower(thr), args: args.clone(), direct: false, own_store: None });
     // templates that reach the resolver with nothing (left) to bind: arguments applied upstream and an empty argument
     // map, and the same with the inputs applied too (no query left) - every shortcut "nothing to do for this stage"
     // in the resolver is taken by one of them
@@ -102,9 +104,9 @@ pub fn actions() -> Vec<Action> {
         let applied = tx3_tir::reduce::apply_args(tx.clone(), a).expect("arguments apply");
         tx3_tir::reduce::reduce(applied).expect("reduces")
     };
-    v.push(Action { name: "args-preapplied-3-outputs-min_utxo(last)", tx: pre(&lower(&outputs_src(3, Some(2))), &args), args: ArgMap::new(), direct: false });
-    v.push(Action { name: "args-preapplied-min_utxo-in-threshold", tx: pre(&lower(thr), &args), args: ArgMap::new(), direct: false });
-    v.push(Action { name: "args-preapplied-2-outputs", tx: pre(&lower(&outputs_src(2, None)), &args), args: ArgMap::new(), direct: false });
+    v.push(Action { name: "args-preapplied-3-outputs-min_utxo(last)", tx: pre(&lower(&outputs_src(3, Some(2))), &args), args: ArgMap::new(), direct: false, own_store: None });
+    v.push(Action { name: "args-preapplied-min_utxo-in-threshold", tx: pre(&lower(thr), &args), args: ArgMap::new(), direct: false, own_store: None });
+    v.push(Action { name: "args-preapplied-2-outputs", tx: pre(&lower(&outputs_src(2, None)), &args), args: ArgMap::new(), direct: false, own_store: None });
     {
         // no query left either: the input is bound to a fixed UTxO of 9 ADA that no store holds
         let t = pre(&lower(&outputs_src(3, Some(2))), &args);
@@ -112,14 +114,29 @@ pub fn actions() -> Vec<Action> {
         let mut m = BTreeMap::new();
         m.insert("src".to_string(), HashSet::from([own]));
         let t = tx3_tir::reduce::apply_inputs(t, &m).expect("inputs apply");
-        v.push(Action { name: "args-and-inputs-preapplied-3-outputs-min_utxo(last)", tx: t, args: ArgMap::new(), direct: false });
+        v.push(Action { name: "args-and-inputs-preapplied-3-outputs-min_utxo(last)", tx: t, args: ArgMap::new(), direct: false, own_store: None });
+    }
+    // the same address held something else when an earlier resolution looked (and failed / succeeded) there
+    let mut poor2 = args.clone();
+    poor2.insert("q".into(), ArgValue::Int(900_000_000_000));
+    v.push(Action { name: "fails-input-not-resolved@other-store", tx: lower(&outputs_src(2, None)), args: poor2, direct: false, own_store: Some(3) });
+    v.push(Action { name: "2-outputs@other-store", tx: lower(&outputs_src(2, None)), args: args.clone(), direct: false, own_store: Some(3) });
+    // scripts of each Plutus version with a redeemer: the script data hash is made from the language's cost model
+    for version in 1..=3u8 {
+        let src = format!(
+            "party S;\nparty R;\ntx t(q: Int) {{\n    input src {{\n        from: S,\n        min_amount: fees + Ada(q),\n    }}\n    mint {{\n        amount: AnyAsset(0x{}, \"T\", 1),\n        redeemer: (),\n    }}\n    output o0 {{\n        to: S,\n        amount: src - fees + AnyAsset(0x{}, \"T\", 1),\n    }}\n    cardano::plutus_witness {{\n        version: {version},\n        script: 0x4E4D0100003322222005120012001{version},\n    }}\n}}\n",
+            "c1".repeat(28),
+            "c1".repeat(28)
+        );
+        let name: &'static str = ["mint-guarded-by-plutus-v1", "mint-guarded-by-plutus-v2", "mint-guarded-by-plutus-v3"][version as usize - 1];
+        v.push(Action { name, tx: lower(&src), args: args.clone(), direct: false, own_store: None });
     }
     // the instance may also have been used to compile constant templates directly
     let constant = crate::gen::tirgen::place(5, tir::Expression::None);
     let mut no_outputs = constant.clone();
     no_outputs.outputs.clear();
-    v.push(Action { name: "direct-compile-2-outputs", tx: constant, args: ArgMap::new(), direct: true });
-    v.push(Action { name: "direct-compile-0-outputs", tx: no_outputs, args: ArgMap::new(), direct: true });
+    v.push(Action { name: "direct-compile-2-outputs", tx: constant, args: ArgMap::new(), direct: true, own_store: None });
+    v.push(Action { name: "direct-compile-0-outputs", tx: no_outputs, args: ArgMap::new(), direct: true, own_store: None });
     v
 }
 
@@ -130,6 +147,8 @@ fn store(which: usize) -> Vec<Utxo> {
         1 => vec![
             tirb::utxo(UtxoRef { txid: vec![0x12; 32], index: 3 }, &a, CanonicalAssets::from_naked_amount(500_000_000_000)),
         ],
+        // what the same address held at another time
+        3 => vec![tirb::utxo(UtxoRef { txid: vec![0x14; 32], index: 7 }, &a, CanonicalAssets::from_naked_amount(70_000_000))],
         // tight funds: enough for every template sized from its own body, not for one sized from a fat foreign body
         _ => vec![tirb::utxo(UtxoRef { txid: vec![0x13; 32], index: 0 }, &a, CanonicalAssets::from_naked_amount(3_000_000))],
     }
@@ -198,12 +217,22 @@ fn resolve(c: &mut Compiler, a: &Action, utxos: &[Utxo]) -> Out {
             Err(p) => Out::Panic(p.signature()),
         };
     }
-    let st = MemStore::new(utxos.to_vec());
+    let st = MemStore::new(match a.own_store {
+        Some(k) => store(k),
+        None => utxos.to_vec(),
+    });
     match panics::catch(|| pollster::block_on(tx3_resolver::resolve_tx(AnyTir::V1Beta0(a.tx.clone()), &a.args, c, &st, 10))) {
         Ok(Ok(t)) => Out::Ok { payload: t.payload, hash: t.hash, fee: t.fee },
         Ok(Err(e)) => Out::Err(super::c03::err_kind(&e)),
         Err(p) => Out::Panic(p.signature()),
     }
+}
+
+/// runs `f` on a thread of its own: state kept per thread (a `thread_local!` cache) then belongs to that one
+/// evaluation - it can leak from a history into its target, which is the question, but not from one evaluation into
+/// the next, nor into the fresh reference
+fn on_own_thread<T: Send>(f: impl FnOnce() -> T + Send) -> T {
+    std::thread::scope(|s| s.spawn(f).join().expect("evaluation thread"))
 }
 
 fn replay(history: &[usize], acts: &[Action], utxos: &[Utxo], pp: &PP) -> Compiler {
@@ -222,7 +251,7 @@ fn run_model(store_ix: usize, pp_ix: usize, depth: usize) -> Outcome {
     // fresh outcomes (must be reproducible, otherwise the target is excluded: that would be C10's matter)
     let mut fresh: Vec<Option<Out>> = vec![];
     for a in &acts {
-        let runs: Vec<Out> = (0..3).map(|_| resolve(&mut compiler(&pp), a, &utxos)).collect();
+        let runs: Vec<Out> = (0..3).map(|_| on_own_thread(|| resolve(&mut compiler(&pp), a, &utxos))).collect();
         o.evals += 3;
         if runs.iter().all(|r| *r == runs[0]) {
             o.class(format!("fresh:{}:{}", a.name, runs[0].kind()));
@@ -232,6 +261,7 @@ fn run_model(store_ix: usize, pp_ix: usize, depth: usize) -> Outcome {
             fresh.push(None);
         }
     }
+    let unmerged = if depth >= 4 { 2 } else { 1 };
     let cfg0 = config_fingerprint(&compiler(&pp));
     // breadth-first search over histories, states identified by latest_tx_body
     let mut seen: HashSet<Vec<u8>> = HashSet::new();
@@ -248,12 +278,15 @@ fn run_model(store_ix: usize, pp_ix: usize, depth: usize) -> Outcome {
         // the property, in this state, for every target
         for (t, a) in acts.iter().enumerate() {
             let Some(expect) = &fresh[t] else { continue };
-            let mut replica = replay(&hist, &acts, &utxos, &pp);
-            let got = resolve(&mut replica, a, &utxos);
+            let (got, replica_cfg, replica_body) = on_own_thread(|| {
+                let mut replica = replay(&hist, &acts, &utxos, &pp);
+                let got = resolve(&mut replica, a, &utxos);
+                (got, config_fingerprint(&replica), body_bytes(&replica))
+            });
             transitions += 1;
             compared += 1;
             o.evals += 1;
-            if config_fingerprint(&replica) != cfg0 {
+            if replica_cfg != cfg0 {
                 o.violate(Violation::new("machinery|compiler-config-mutated", "a field other than latest_tx_body changed during resolution"));
             }
             if got != *expect {
@@ -273,8 +306,12 @@ fn run_model(store_ix: usize, pp_ix: usize, depth: usize) -> Outcome {
             }
             // successor state
             if hist.len() < depth {
-                let key = body_bytes(&replica);
-                if seen.insert(key) {
+                // histories of one resolution (thorough: up to two) are all kept apart: what a resolution leaves behind need not be in
+                // the instance (a cache per thread or per process), and a failed one leaves the instance as it was.
+                // Longer ones are merged on the instance's state.
+                let key = replica_body;
+                let fresh_key = seen.insert(key);
+                if hist.len() < unmerged || fresh_key {
                     let mut h2 = hist.clone();
                     h2.push(t);
                     frontier.push_back(h2);
@@ -303,16 +340,16 @@ impl Prop for C20 {
         format!(
             "explicit-state breadth-first search whose transition function is the implementation: state = history of resolutions replayed on a fresh \
              tx3_cardano::Compiler, state key = bytes of Compiler.latest_tx_body (the other fields are asserted unchanged at every transition); alphabet of \
-             17 actions (15 resolutions (templates with 0, 1, 2, 5 outputs, min_utxo of the first / last output, one failing in reduce, one with InputNotResolved, one \
-             failing in compile, a 1000-byte datum, min_utxo in a threshold, four templates whose arguments (and inputs) were applied upstream and that arrive with an empty argument map); 2 direct Compiler::compile calls on constant templates); depth {} ; 3 stores (ample, huge, tight) x 3 protocol-parameter sets (separate models). In every state every action is resolved on a replica \
-             and its outcome (payload, hash, fee | error kind | panic) compared with the outcome on a fresh instance (itself reproduced 3 times). Every \
+             22 actions (20 resolutions (templates with 0, 1, 2, 5 outputs, min_utxo of the first / last output, one failing in reduce, one with InputNotResolved, one \
+             failing in compile, a 1000-byte datum, min_utxo in a threshold, four templates whose arguments (and inputs) were applied upstream and that arrive with an empty argument map, two that look at the same address when it holds another UTxO, a guarded mint under each Plutus version); 2 direct Compiler::compile calls on constant templates); depth {} ; 3 stores (ample, huge, tight) x 3 protocol-parameter sets (separate models). In every state every action is resolved on a replica \
+             and its outcome (payload, hash, fee | error kind | panic) compared with the outcome on a fresh instance (itself reproduced 3 times). Each evaluation (history + target) runs on a thread of its own, so per-thread state leaks from a history into its target only. Every \
              transition executes the real resolve_tx, so model and implementation cannot diverge.",
             if tier.is_thorough() { 4 } else { 3 }
         )
     }
     fn assumptions(&self) -> Vec<String> {
         vec![
-            "states are merged when latest_tx_body is byte-identical: the struct has no other mutable field (checked)".into(),
+            "histories longer than two resolutions are merged when latest_tx_body is byte-identical: the struct has no other mutable field (checked); all histories of length 1 (thorough: <= 2) are explored unmerged, so state kept outside the instance shows when one (two) resolutions suffice to set it up".into(),
             "every query of the alphabet has a unique admissible UTxO, so selection tie-breaks cannot differ between runs".into(),
         ]
     }
